@@ -1031,4 +1031,28 @@ theorem mask_assign_other {α} (l vs : List α) (m : List Bool) (q : Nat) (hq : 
 example : scatter [65, 67, 71, 84] (maskPositions 0 [true, false, true, false]) [78, 78] = [78, 67, 78, 84]
     ∧ pick [78, 67, 78, 84] (maskPositions 0 [true, false, true, false]) = some [78, 78] := by decide
 
+/-- **C07.pick_concat_left** — selecting from a concatenation at positions inside the first operand is selecting from the
+first operand (`np.concatenate([f, g])[ix] = f[ix]`). -/
+theorem pick_concat_left {α} (l m : List α) (pos : List Nat) (h : ∀ p ∈ pos, p < l.length) :
+    pick (l ++ m) pos = pick l pos := by
+  unfold pick
+  apply omap_congr
+  intro p hp
+  exact List.getElem?_append_left (h p hp)
+
+/-- **C07.pick_concat_right** — positions shifted by the length of the first operand select from the second
+(`np.concatenate([f, g])[len(f) + ix] = g[ix]`, raising exactly when `g[ix]` does). -/
+theorem pick_concat_right {α} (l m : List α) (pos : List Nat) :
+    pick (l ++ m) (pos.map (· + l.length)) = pick m pos := by
+  induction pos with
+  | nil => rfl
+  | cons p ps ih =>
+    unfold pick at ih ⊢
+    simp only [List.map_cons, omap, ih]
+    rw [List.getElem?_append_right (by omega)]
+    simp
+
+/-- non-vacuity: `"AC" ++ "GT"` at `[1, 0]` and at `[2+1, 2+0]` -/
+example : pick ([65, 67] ++ [71, 84]) [1, 0] = some [67, 65] ∧ pick ([65, 67] ++ [71, 84]) ([1, 0].map (· + 2)) = some [84, 71] := by decide
+
 end C07
